@@ -37,10 +37,23 @@ EXE=$BIN/$PKG$SUF.test
 LOG=$LOGS/$ID-$TIER-seed$VERIF_SEED.log
 BLOG=$LOGS/build-$PKG$SUF.log
 
+# VERIF_REPO=<dir>: build against a scratch copy of the repository instead of /repo (mutation rehearsal only;
+# registered commands never set it)
+MODFLAG=""
+if [ -n "${VERIF_REPO:-}" ]; then
+  TAG=$(echo "$VERIF_REPO" | md5sum | cut -c1-8)
+  MF=$BIN/go-$TAG.mod
+  sed "s#=> /repo#=> $VERIF_REPO#g" "$ROOT/harness/go.mod" > "$MF"
+  cp "$ROOT/harness/go.sum" "$BIN/go-$TAG.sum"
+  MODFLAG="-modfile=$MF"
+  EXE=$BIN/$PKG$SUF-$TAG.test
+  BLOG=$LOGS/build-$PKG$SUF-$TAG.log
+fi
+
 # serialise builds of the same binary (parallel checks share it)
 (
   flock 9
-  cd "$ROOT/harness" && $GO test -tags verif $RFLAG -vet=off -c -o "$EXE" ./props/$PKG >"$BLOG" 2>&1
+  cd "$ROOT/harness" && $GO test $MODFLAG -tags verif $RFLAG -vet=off -c -o "$EXE" ./props/$PKG >"$BLOG" 2>&1
 ) 9>"$BIN/.lock-$PKG$SUF"
 if [ $? -ne 0 ] || [ ! -x "$EXE" ]; then
   echo "BUILD-FAILED property=$ID (see $BLOG)"; tail -n 30 "$BLOG"
